@@ -2,7 +2,7 @@ PLAN['C10'] = dict(
     level='exploration',
     # the routines are precision independent: one precision letter per variant; the metamorphic twin of each case
     # is built in a random precision (s/d/c/z)
-    units=std_units('C10', [('asan', 'd', 48000, 900000), ('asan-i64', 'd', 16000, 300000)], chunk=250),
+    units=std_units('C10', [('asan', 'd', 96000, 900000), ('asan-i64', 'd', 32000, 300000)], chunk=250),
     rule='seeded m x n patterns (n 1..80, 4-5% tail to 150 columns / 200 rows): 11 library pattern classes, incidence-row graphs, random forests, all-empty; '
          'x dense rows/columns, duplicated rows, emptied rows/columns, row/column scrambling, unsorted columns, explicit zeros; '
          'x {NATURAL, MMD_ATA, MMD_AT_PLUS_A (square), COLAMD, MY_PERMC (identity/reverse/random)} x SymmetricMode x refactor mode; '
